@@ -140,6 +140,12 @@ t("const_int_min_folded", "x = -9223372036854775807 - 1\ny = -2147483647 - 1\nz 
 t("const_huge_int_folded", "x = 1 << 20000\ny = (1 << 20000, 'a')", hi=(2, 7))
 t("const_huge_int_literal", "x = " + "9" * 5000 + "\ny = (" + "9" * 5000 + ", 'a')", hi=(3, 6))
 t("ident_small_int", "x = 10\ny = x is int('10')\nz = 256\nw = z is int('256')\nv = (-5, 0, 1)[0] is int('-5')")
+# hunting wave: statements whose operands are *parameters* and that come first in a function body (nothing precedes the operand
+# loads; 3.13 fuses neighbouring LOAD_FASTs into one instruction) - the extended formatter looks backwards from each instruction
+t("params_first_stmt_store_subscr", "def f(d, k, v):\n    d[k] = v\n    return d\nx = f({}, 1, 2)")
+t("params_first_stmt_const_key_map", "def f(a, b, c):\n    return {'x': a, 'y': b, 'z': c}\nx = f(1, 2, 3)")
+t("params_first_stmt_forms", "def f1(a, b):\n    return a[b]\ndef f2(a, b):\n    a.attr = b\ndef f3(a, b, c):\n    return a[b:c]\ndef f4(a, b):\n    del a[b]\ndef f5(a, b):\n    return a(b, b, k=a)\ndef f6(a, b):\n    return [a, b], (a, b), {a, b}, {a: b}\ndef f7(a, b):\n    a += b\n    return a if a else b\ndef f8(a, b):\n    return f'{a}{b!r:>{a}}'\nx = f1([1, 2], 0)", lo=(3, 6))
+t("params_first_stmt_forms_py2", "def f1(a, b):\n    return a[b]\ndef f2(a, b):\n    a.attr = b\ndef f3(a, b, c):\n    return a[b:c]\ndef f4(a, b):\n    del a[b]\ndef f5(a, b):\n    return a(b, b, k=a)\ndef f6(a, b):\n    return [a, b], (a, b), {a: b}\ndef f7(a, b):\n    a += b\n    return a if a else b\nx = f1([1, 2], 0)")
 t("const_equal_distinct", "x = (0.0, -0.0, 1, 1.0, True, (1, 2), (1.0, 2.0), 0, False, 0j)")
 
 # ---- functions --------------------------------------------------------------
